@@ -92,7 +92,7 @@ func (c27Watcher) Watch(ctx context.Context, key string, opts ...clientv3.OpOpti
 	return ch
 }
 func (c27Watcher) RequestProgress(ctx context.Context) error { return nil }
-func (c27Watcher) Close() error                               { return nil }
+func (c27Watcher) Close() error                              { return nil }
 
 // ---------------------------------------------------------------- case description
 
@@ -930,8 +930,8 @@ func c27Configs(thorough bool) []c27Config {
 				if kc.Unknown && !allUnknown {
 					continue // the router is keyed by topic name: unresolved ids are never looked up
 				}
-				if !thorough && n == 4 {
-					// quick, 2x2 shape: routing tables up to the A<->B symmetry (swapping the two backends and
+				if n == 4 {
+					// 2x2 shape: routing tables up to the A<->B symmetry (swapping the two backends and
 					// the round-robin phase gives an isomorphic system): the first owned partition is A's
 					first := 0
 					for _, x := range routes {
@@ -1047,7 +1047,11 @@ func TestVerifC27(t *testing.T) {
 		n := cfg.Topics * cfg.Parts
 		if thorough {
 			if n == 4 {
-				return 3
+				switch cfg.Kind {
+				case "produce-v9-acks1", "produce-v7-acksall", "fetch-name-v11", "fetch-id-v13":
+					return 3
+				}
+				return 2
 			}
 			return 4
 		}
@@ -1056,7 +1060,7 @@ func TestVerifC27(t *testing.T) {
 		}
 		return 3
 	}
-	rep.SetInfo("max_faults", map[string]int{"<=2 partitions": faults(c27Config{Topics: 1, Parts: 1}), "4 partitions": faults(c27Config{Topics: 2, Parts: 2})})
+	rep.SetInfo("max_faults", map[string]int{"<=2 partitions": faults(c27Config{Kind: "produce-v9-acks1", Topics: 1, Parts: 1}), "4 partitions": faults(c27Config{Kind: "produce-v9-acks1", Topics: 2, Parts: 2}), "4 partitions, extra thorough kinds": faults(c27Config{Kind: "fetch-name-v12", Topics: 2, Parts: 2})})
 	rep.SetInfo("backends", 2)
 	rep.SetInfo("proxy_knobs", "backendRetries=1 backendBackoff=1ns maxRetries=3 (constant in forwardProduce/forwardFetch)")
 	cfgs := c27Configs(thorough)
